@@ -24,8 +24,12 @@ MANIFEST = dict(
          'output path go through the same make_path, call sites regenerated from the source), py_imports_closed (every imported '
          'package has its generated __init__ chain), guard_injective (guards differ unless the macro-cased full names fold; full '
          'statement refuted by witness a.b.C / a.b_C = known finding), namespace_braces_balanced (open/close emit the same names, '
-         'mirrored), std_includes_cover (regenerated get_includes tables cover the names the templates use, per dependency flag; '
-         'refuted for --omit-serialization-support = known findings). Tie: translator gen_c06.py (get_includes of c/cpp, make_path '
+         'mirrored), stropping_total (C09 totality imported: the model never takes a totalised arm; all id types used are legal), '
+         'py_any_path_agree (any/path strop every DSDL identifier alike) with py_init_imports_closed and py_literal_imports_closed (omit '
+         'state follows the template), std_includes_cover_c (all 2^12 feature records incl. those computed from a tdef; tables regenerated: '
+         'get_includes, guarded support/base.j2 includes, guarded std names of the templates over gcc\'s C11 universe, filter names, '
+         'header->names from gcc) and its POD form as an iff with a boolean the check compares with the compile probe. '
+         'Tie: translator gen_c06.py (get_includes of c/cpp, make_path '
          'call sites and id types, support files, template std-name scan) + extracted model vs. real nnvg file sets, include sets, '
          'guards, namespace lines on generated hostile-name namespaces. Falsifier: each C header compiled alone as C11 and in a '
          'C++14 TU, each C++ header alone for c++14/17/20/17-pmr, each Python module compiled and imported in a fresh interpreter, '
@@ -819,7 +823,7 @@ def main(chk: core.Check, replay: typing.Optional[str] = None) -> int:
         doc = json.load(open(replay))
         cases = [doc['case']] if 'case' in doc else dg.corpus()
     else:
-        n_random = 4 if quick else 24
+        n_random = 3 if quick else 24
         cases = dg.corpus() + dg.witness_corpus() + [gen.case(chk.rng.choice([5, 8, 8, 10])) for _ in range(n_random)]
     configs = all_configs()
     if 'F-C06-PY-POD' in live:
@@ -882,7 +886,7 @@ def main(chk: core.Check, replay: typing.Optional[str] = None) -> int:
                 requests.append(model_lines(r, cfg, quirk_union))
                 req_index.append((ci, cfg))
         ccfgs = configs
-        if quick and ci >= 2 + len(dg.witness_corpus()):
+        if quick:
             keep_pod = {'c++14', chk.rng.choice(CPP_STDS[1:])}
             ccfgs = [c for c in configs if not (c['lang'] == 'cpp' and c['pod'] and c['std'] not in keep_pod)]
         jobs += make_jobs(ci, r, ccfgs)
